@@ -19,6 +19,8 @@ def consts : Ex Float → List (Bool × Dom × MVal Float)
   | .sub a b => consts a ++ consts b
   | .mul a b => consts a ++ consts b
   | .vdot a b => consts a ++ consts b
+  | .bil _ _ _ _ a b => consts a ++ consts b
+  | .varcov _ a b => consts a ++ consts b
   | .chain f g => consts f ++ consts g
   | .scale _ a => consts a
   | .addc _ _ a => consts a
